@@ -242,7 +242,7 @@ func runC07(ctx *Ctx) {
 			c07Staged(ctx, i, drv, rng)
 			return
 		}
-		cfg := worldCfg{Drv: drv, Price: "1", IntervalNs: 1, Settle: rng.Intn(10) != 0}
+		cfg := worldCfg{Drv: drv, Price: "1", IntervalNs: 1, Settle: rng.Intn(10) != 0, FeeFresh: rng.Intn(2) == 0}
 		switch rng.Intn(4) {
 		case 0:
 			cfg.WMin, cfg.Fee = strp("5000"), "2500"
